@@ -26,11 +26,12 @@ fn main() {
     let (mut systems, mut angle_reqs, mut special, mut lints, mut degen_checked, mut collapsed, mut clean_starts, mut healthy_audits) = (0usize, 0usize, 0usize, 0usize, 0usize, 0usize, 0usize, 0usize);
     for i in 0..n {
         // a system with angle requests drawn from a dense set around the special values, both units
-        let mut sys = match i % 3 {
+        let sys = match i % 3 {
             0 => gen_planted(&mut rng, 6, 1e-2, &SHAPES),
             1 => gen_linear(&mut rng, 4, 5),
             _ => gen_planted(&mut rng, 4, 0.2, &SHAPES),
         };
+        let mut sys = maybe_large(&mut rng, i, sys);
         if i % 3 == 0 && rng.chance(1, 6) {
             sys = with_short_feature(&mut rng, sys);
         }
@@ -214,5 +215,6 @@ fn main() {
             println!("VIOLATION {}", v.to_json());
         }
     }
-    println!("STATS {{\"systems\": {systems}, \"angle_requests\": {angle_reqs}, \"special_angles\": {special}, \"lints_seen\": {lints}, \"degeneracy_audits\": {degen_checked}, \"healthy_request_audits\": {healthy_audits}, \"collapsed_guess_systems\": {collapsed}, \"clean_starts\": {clean_starts}, \"violations\": {}}}", out.len());
+    let large_systems = large_count();
+    println!("STATS {{\"systems\": {systems}, \"large_systems\": {large_systems}, \"angle_requests\": {angle_reqs}, \"special_angles\": {special}, \"lints_seen\": {lints}, \"degeneracy_audits\": {degen_checked}, \"healthy_request_audits\": {healthy_audits}, \"collapsed_guess_systems\": {collapsed}, \"clean_starts\": {clean_starts}, \"violations\": {}}}", out.len());
 }
